@@ -7,6 +7,7 @@ import itertools
 import json
 
 from mc.models import ids
+from mc.core.util import exc_name
 
 ID = "C15"
 LEVEL = "exploration"
@@ -25,7 +26,7 @@ def _call(fn, *a):
         r = fn(*a)
         return ["ok", list(r) if isinstance(r, tuple) else r]
     except Exception as exc:                                          # noqa
-        return ["exc", type(exc).__name__]
+        return ["exc", exc_name(exc)]
 
 
 def eval_encode(rel, bp, ctype, date, respin):
@@ -80,6 +81,11 @@ def legacy_doc(version, cid, ctype, with_fields, date, respin):
                         "product": {"name": "Foo", "short": "foo", "version": "1.0", "type": "ga"},
                         "variants": {"Server": {"id": "Server", "uid": "Server", "name": "Server", "type": "variant",
                                                 "arches": ["x86_64"], "paths": {}}}}}
+
+
+def tree_compose_types():
+    import productmd.composeinfo as pc
+    return list(getattr(pc, "COMPOSE_TYPES", []))
 
 
 def eval_legacy(doc):
@@ -192,6 +198,12 @@ def run_unit(unit, acc):
                 else:
                     want = ["exc", "ValueError"]
                     acc.outcome("decode:unknown-suffix-rejected")
+                if (want[0] == "exc" and o["decoded"][0] == "ok" and o["decoded"][1][0] == "20170217" and o["decoded"][1][2] == (respin or 0)
+                        and o["decoded"][1][1] not in ids.COMPOSE_TYPES_DOC and o["decoded"][1][1] in tree_compose_types()):
+                    # the tree knows a compose type the property's list does not: a suffix decoding to THAT type is an
+                    # extension of the table, not an unknown suffix being let through
+                    acc.outcome("decode:suffix-of-a-compose-type-added-in-this-tree")
+                    continue
                 if o["decoded"] != want:
                     acc.violation("decoder-table", {"kind": "dec", "id": cid}, o,
                                   "get_date_type_respin(%r) = %s, documented: %s" % (cid, o["decoded"], want))
